@@ -548,4 +548,288 @@ theorem save_decodes_segment {o : Obj} {os : OStream} {r : SaveRes} (hs : save o
       exact List.mem_cons_of_mem _ (List.mem_append_right _ (List.mem_map.2 ⟨g, hb, rfl⟩)))
   simpa only [segWrite, encodePhdr_length] using this
 
+/-! ### 5. the saved bytes decode to what was put in -/
+
+theorem placed_fit {c : Cls} {a b : SecBuf} (h : Placed c a b) (hf : FieldsFit c a) : FieldsFit c b := by
+  induction h with
+  | refl => exact hf
+  | off v _ ih =>
+    unfold setOffset
+    split
+    · exact ⟨ih.flags, ih.addr, truncA_fit c v, ih.size, ih.addrAlign, ih.entSize⟩
+    · exact ih
+  | addr x _ _ ih => exact ⟨ih.flags, truncA_fit c x, ih.offset, ih.size, ih.addrAlign, ih.entSize⟩
+
+theorem resFrame_fit {c : Cls} {a b : SecBuf} (h : ResFrame a b) (hf : FieldsFit c a) : FieldsFit c b := by
+  rw [h.rest]; exact ⟨hf.flags, hf.addr, hf.offset, hf.size, hf.addrAlign, hf.entSize⟩
+
+/-- the header fields the user controls (and the three size fields the constructor sets) -/
+def userHdr (c : Cls) (enc : Enc) (h : Bytes) :=
+  (Hdr.e_type c enc h, Hdr.e_machine c enc h, Hdr.e_version c enc h, Hdr.e_entry c enc h, Hdr.e_flags c enc h,
+   Hdr.e_ehsize c enc h, Hdr.e_phentsize c enc h, Hdr.e_shentsize c enc h, Hdr.e_shstrndx c enc h,
+   Spec.get (Spec.ehdrL c) enc h 0 "e_ident")
+
+/-- the four layout setters (`e_phnum`, `e_phoff`, `e_shnum`, `e_shoff`) leave the user's fields alone -/
+theorem userHdr_layout_setter (f : HField) (hf : f = .phnum ∨ f = .phoff ∨ f = .shnum ∨ f = .shoff)
+    (c : Cls) (enc : Enc) (h : Bytes) (v : Nat) (hl : ehdrSize c ≤ h.length) :
+    userHdr c enc (f.set c enc h v) = userHdr c enc h ∧ ehdrSize c ≤ (f.set c enc h v).length := by
+  obtain ⟨a0, a1, a2, a3, _, _, a6, a7, a8, _, a10, _, a12⟩ := hdr_set_frame f c enc h v hl
+  have hid := hdr_set_frame_spec f c enc h v hl "e_ident" (by cases c <;> decide)
+  refine ⟨?_, by rw [hdr_set_length f c enc h v hl]; exact hl⟩
+  unfold userHdr
+  rcases hf with rfl | rfl | rfl | rfl <;>
+    rw [a0 (by decide), a1 (by decide), a2 (by decide), a3 (by decide), a6 (by decide), a7 (by decide),
+      a8 (by decide), a10 (by decide), a12 (by decide), hid (by decide)]
+
+/-- **the header of the saved object**: the user's fields are those of the object; the counts are
+    the numbers of sections and segments (mod 2^16) -/
+theorem save_header_fields {o : Obj} {os : OStream} {r : SaveRes} (hs : save o os = .ok r) (hok : r.ok = true) :
+    ∃ hd h, o.hdr = some hd ∧ r.obj.hdr = some h ∧ (ehdrSize o.cls ≤ hd.length →
+      h.length = hd.length ∧ userHdr o.cls o.enc h = userHdr o.cls o.enc hd ∧
+      (Hdr.e_shnum o.cls o.enc h).toNat = o.secs.length % 65536 ∧
+      (Hdr.e_phnum o.cls o.enc h).toNat = o.segs.length % 65536) := by
+  obtain ⟨hd, x, h1, h2⟩ := save_hdr_eq hs hok
+  refine ⟨hd, _, h1, h2, fun hl => ?_⟩
+  unfold saveHdr0
+  simp only
+  generalize hv : (if o.segs.length % 65536 > 0 then
+    (Hdr.e_ehsize o.cls o.enc (Hdr.set_phnum o.cls o.enc hd (o.segs.length % 65536))).toNat else 0) = v
+  obtain ⟨u1, l1⟩ := userHdr_layout_setter .phnum (Or.inl rfl) o.cls o.enc hd (o.segs.length % 65536) hl
+  obtain ⟨u2, l2⟩ := userHdr_layout_setter .phoff (Or.inr (Or.inl rfl)) o.cls o.enc _ v l1
+  obtain ⟨u3, l3⟩ := userHdr_layout_setter .shnum (Or.inr (Or.inr (Or.inl rfl))) o.cls o.enc _ (o.secs.length % 65536) l2
+  obtain ⟨u4, l4⟩ := userHdr_layout_setter .shoff (Or.inr (Or.inr (Or.inr rfl))) o.cls o.enc _ 0 l3
+  obtain ⟨u5, l5⟩ := userHdr_layout_setter .shoff (Or.inr (Or.inr (Or.inr rfl))) o.cls o.enc _ x l4
+  have len : ∀ (f : HField) h' v', ehdrSize o.cls ≤ h'.length → (f.set o.cls o.enc h' v').length = h'.length :=
+    fun f h' v' hl' => hdr_set_length f o.cls o.enc h' v' hl'
+  refine ⟨?_, ?_, ?_, ?_⟩
+  · have e1 := len .phnum hd (o.segs.length % 65536) hl
+    have e2 := len .phoff _ v l1
+    have e3 := len .shnum _ (o.secs.length % 65536) l2
+    have e4 := len .shoff _ 0 l3
+    have e5 := len .shoff _ x l4
+    exact e5.trans (e4.trans (e3.trans (e2.trans e1)))
+  · exact u5.trans (u4.trans (u3.trans (u2.trans u1)))
+  · -- e_shnum: set by the third setter, untouched by the two later ones
+    have g := (hdr_set_get o.cls o.enc (HField.phoff.set o.cls o.enc (HField.phnum.set o.cls o.enc hd (o.segs.length % 65536)) v)
+      (o.secs.length % 65536) l2).2.2.2.2.2.2.2.2.1
+    have f4 := (hdr_set_frame .shoff o.cls o.enc _ 0 l3).2.2.2.2.2.2.2.2.2.2.2.1 (by decide)
+    have f5 := (hdr_set_frame .shoff o.cls o.enc _ x l4).2.2.2.2.2.2.2.2.2.2.2.1 (by decide)
+    exact (congrArg BitVec.toNat (f5.trans f4)).trans (g.trans (Nat.mod_mod _ _))
+  · have g := (hdr_set_get o.cls o.enc hd (o.segs.length % 65536) hl).2.2.2.2.2.2.2.1
+    have f2 := (hdr_set_frame .phoff o.cls o.enc _ v l1).2.2.2.2.2.2.2.2.2.1 (by decide)
+    have f3 := (hdr_set_frame .shnum o.cls o.enc _ (o.secs.length % 65536) l2).2.2.2.2.2.2.2.2.2.1 (by decide)
+    have f4 := (hdr_set_frame .shoff o.cls o.enc _ 0 l3).2.2.2.2.2.2.2.2.2.1 (by decide)
+    have f5 := (hdr_set_frame .shoff o.cls o.enc _ x l4).2.2.2.2.2.2.2.2.2.1 (by decide)
+    exact (congrArg BitVec.toNat (f5.trans (f4.trans (f3.trans f2)))).trans (g.trans (Nat.mod_mod _ _))
+
+/-- a section header record found at `base` of an image decodes, per the specification, to the
+    section's fields -/
+theorem shdr_get_at {c : Cls} {enc : Enc} {img : Bytes} {base : Nat} {b : SecBuf}
+    (hs : slice img base (shdrSize c) = encodeShdr c enc b) (hf : FieldsFit c b) :
+    Spec.get (Spec.shdrL c) enc img base "sh_name" = b.nameOff.toNat ∧
+    Spec.get (Spec.shdrL c) enc img base "sh_type" = b.stype.toNat ∧
+    Spec.get (Spec.shdrL c) enc img base "sh_flags" = b.flags.toNat ∧
+    Spec.get (Spec.shdrL c) enc img base "sh_addr" = b.addr.toNat ∧
+    Spec.get (Spec.shdrL c) enc img base "sh_offset" = b.offset.toNat ∧
+    Spec.get (Spec.shdrL c) enc img base "sh_size" = b.size.toNat ∧
+    Spec.get (Spec.shdrL c) enc img base "sh_link" = b.link.toNat ∧
+    Spec.get (Spec.shdrL c) enc img base "sh_info" = b.info.toNat ∧
+    Spec.get (Spec.shdrL c) enc img base "sh_addralign" = b.addrAlign.toNat ∧
+    Spec.get (Spec.shdrL c) enc img base "sh_entsize" = b.entSize.toNat := by
+  obtain ⟨h0, h1, h2, h3, h4, h5, h6, h7, h8, h9⟩ := encodeShdr_eq_spec c enc b hf
+  have bd : ∀ name ∈ ["sh_name", "sh_type", "sh_flags", "sh_addr", "sh_offset", "sh_size", "sh_link", "sh_info", "sh_addralign", "sh_entsize"],
+      (Spec.field (Spec.shdrL c) name).1 + (Spec.field (Spec.shdrL c) name).2 ≤ shdrSize c := by
+    cases c <;> decide
+  exact ⟨(get_at_base hs (bd _ (by decide))).trans h0,
+    (get_at_base hs (bd _ (by decide))).trans h1,
+    (get_at_base hs (bd _ (by decide))).trans h2,
+    (get_at_base hs (bd _ (by decide))).trans h3,
+    (get_at_base hs (bd _ (by decide))).trans h4,
+    (get_at_base hs (bd _ (by decide))).trans h5,
+    (get_at_base hs (bd _ (by decide))).trans h6,
+    (get_at_base hs (bd _ (by decide))).trans h7,
+    (get_at_base hs (bd _ (by decide))).trans h8,
+    (get_at_base hs (bd _ (by decide))).trans h9⟩
+
+theorem phdr_get_at {c : Cls} {enc : Enc} {img : Bytes} {base : Nat} {g : Seg}
+    (hs : slice img base (phdrSize c) = encodePhdr c enc g) (hf : SegFit c g) :
+    Spec.get (Spec.phdrL c) enc img base "p_type" = g.stype.toNat ∧
+    Spec.get (Spec.phdrL c) enc img base "p_flags" = g.flags.toNat ∧
+    Spec.get (Spec.phdrL c) enc img base "p_offset" = g.offset.toNat ∧
+    Spec.get (Spec.phdrL c) enc img base "p_vaddr" = g.vaddr.toNat ∧
+    Spec.get (Spec.phdrL c) enc img base "p_paddr" = g.paddr.toNat ∧
+    Spec.get (Spec.phdrL c) enc img base "p_filesz" = g.filesz.toNat ∧
+    Spec.get (Spec.phdrL c) enc img base "p_memsz" = g.memsz.toNat ∧
+    Spec.get (Spec.phdrL c) enc img base "p_align" = g.align.toNat := by
+  obtain ⟨h0, h1, h2, h3, h4, h5, h6, h7⟩ := encodePhdr_eq_spec c enc g hf
+  have bd : ∀ name ∈ ["p_type", "p_flags", "p_offset", "p_vaddr", "p_paddr", "p_filesz", "p_memsz", "p_align"],
+      (Spec.field (Spec.phdrL c) name).1 + (Spec.field (Spec.phdrL c) name).2 ≤ phdrSize c := by
+    cases c <;> decide
+  exact ⟨(get_at_base hs (bd _ (by decide))).trans h0,
+    (get_at_base hs (bd _ (by decide))).trans h1,
+    (get_at_base hs (bd _ (by decide))).trans h2,
+    (get_at_base hs (bd _ (by decide))).trans h3,
+    (get_at_base hs (bd _ (by decide))).trans h4,
+    (get_at_base hs (bd _ (by decide))).trans h5,
+    (get_at_base hs (bd _ (by decide))).trans h6,
+    (get_at_base hs (bd _ (by decide))).trans h7⟩
+
+/-- **save_decode_fields** : the saved bytes, read with the *specification's* decoder, give back what
+    was put into the object.  For every section, in the same order (record `index` of the table at
+    `e_shoff`): the same name offset, type, flags, size, link, info, alignment, entry size; the same
+    address if one had been set; and, for a file-occupying non-empty resident section, its data at
+    the decoded `sh_offset`.  For every segment (record `index` of the table at `e_phoff`): the same
+    type, flags, virtual and physical address, and an alignment of at least the requested one.
+    Hypotheses: the save succeeded into a good stream; no address translation; `LayoutOk` (C04's
+    disjointness, as hypothesis); the object's section fields fit the class (`FieldsFit`, guaranteed by
+    the truncating setters) and the saved segments' do (`SegFit`; trivial in ELF64). -/
+theorem save_decode_fields {o : Obj} {os : OStream} {r : SaveRes} (hs : save o os = .ok r) (hok : r.ok = true)
+    (hg : os.Good) (htr : o.trans = []) (hidx : SegIdxOk o.segs) {h : Bytes} (hh : r.obj.hdr = some h)
+    (hl : LayoutOk r.obj.cls r.obj.enc h r.obj.secs r.obj.segs)
+    (hfit : ∀ a ∈ o.secs, FieldsFit o.cls a) (hsegfit : ∀ g ∈ r.obj.segs, SegFit o.cls g) :
+    (∀ (i : Nat) a, o.secs[i]? = some a →
+      let img := r.os.content
+      let base := (Hdr.e_shoff o.cls o.enc h).toNat + (Hdr.e_shentsize o.cls o.enc h).toNat * a.index
+      let l := Spec.shdrL o.cls
+      Spec.get l o.enc img base "sh_name" = a.nameOff.toNat ∧ Spec.get l o.enc img base "sh_type" = a.stype.toNat ∧
+      Spec.get l o.enc img base "sh_flags" = a.flags.toNat ∧ Spec.get l o.enc img base "sh_size" = a.size.toNat ∧
+      Spec.get l o.enc img base "sh_link" = a.link.toNat ∧ Spec.get l o.enc img base "sh_info" = a.info.toNat ∧
+      Spec.get l o.enc img base "sh_addralign" = a.addrAlign.toNat ∧
+      Spec.get l o.enc img base "sh_entsize" = a.entSize.toNat ∧
+      (a.addrSet = true → Spec.get l o.enc img base "sh_addr" = a.addr.toNat) ∧
+      (a.stype ≠ BitVec.ofNat 32 SHT_NOBITS → a.stype ≠ BitVec.ofNat 32 SHT_NULL → a.size ≠ 0 →
+        a.data.isSome = true → (a.isLoaded = true ∨ a.canLoad = false) →
+        slice img (Spec.get l o.enc img base "sh_offset") a.view.length = a.view)) ∧
+    (∀ (j : Nat) g, o.segs[j]? = some g →
+      let img := r.os.content
+      let base := (Hdr.e_phoff o.cls o.enc h).toNat + (Hdr.e_phentsize o.cls o.enc h).toNat * g.index
+      let l := Spec.phdrL o.cls
+      Spec.get l o.enc img base "p_type" = g.stype.toNat ∧ Spec.get l o.enc img base "p_flags" = g.flags.toNat ∧
+      Spec.get l o.enc img base "p_vaddr" = g.vaddr.toNat ∧ Spec.get l o.enc img base "p_paddr" = g.paddr.toNat ∧
+      g.align.toNat ≤ Spec.get l o.enc img base "p_align") := by
+  obtain ⟨⟨l1, f1, f2⟩, fs, ec, ee, _⟩ := save_frames hs hok hidx
+  rw [ec, ee] at hl
+  constructor
+  · intro i a ha
+    have hi : i < l1.length := by
+      rw [f1.1]
+      rcases Nat.lt_or_ge i o.secs.length with hlt | hge
+      · exact hlt
+      · rw [List.getElem?_eq_none hge] at ha; cases ha
+    have hi2 : i < r.obj.secs.length := by rw [f2.1]; exact hi
+    have pm := f1.2 i a l1[i] ha (List.getElem?_eq_getElem hi)
+    have rb := f2.2 i l1[i] r.obj.secs[i] (List.getElem?_eq_getElem hi) (List.getElem?_eq_getElem hi2)
+    have fit : FieldsFit o.cls r.obj.secs[i] := resFrame_fit rb (placed_fit pm (hfit a (List.mem_of_getElem? ha)))
+    have hmem : r.obj.secs[i] ∈ r.obj.secs := List.getElem_mem hi2
+    have hl' : LayoutOk r.obj.cls r.obj.enc h r.obj.secs r.obj.segs := by rw [ec, ee]; exact hl
+    obtain ⟨hrec, dat⟩ := save_decodes_section hs hok hg htr hh hl' hmem
+    rw [ec, ee] at hrec
+    have e1 := pm.frame.rest; have e2 := rb.rest
+    have eidx : (r.obj.secs[i]).index = a.index := by rw [e2, e1]
+    rw [eidx] at hrec
+    obtain ⟨g0, g1, g2, g3, g4, g5, g6, g7, g8, g9⟩ := shdr_get_at hrec fit
+    simp only
+    refine ⟨g0.trans ?_, g1.trans ?_, g2.trans ?_, g5.trans ?_, g6.trans ?_, g7.trans ?_, g8.trans ?_, g9.trans ?_,
+      fun hset => g3.trans ?_, fun n1 n2 n3 n4 n5 => ?_⟩
+    · rw [e2, e1]
+    · rw [e2, e1]
+    · rw [e2, e1]
+    · rw [e2, e1]
+    · rw [e2, e1]
+    · rw [e2, e1]
+    · rw [e2, e1]
+    · rw [e2, e1]
+    · have := (pm.frame.addrKept hset).1
+      rw [e2]; exact congrArg BitVec.toNat this
+    · -- data
+      have hm : (l1[i]).isLoaded = true ∨ (l1[i]).canLoad = false := by rw [e1]; exact n5
+      have eb : r.obj.secs[i] = l1[i] := rb.resident hm
+      have hst : (r.obj.secs[i]).stype = a.stype := by rw [e2, e1]
+      have hsz : (r.obj.secs[i]).size = a.size := by rw [e2, e1]
+      have hda : (r.obj.secs[i]).data = a.data := by rw [eb, e1]
+      cases hd : a.data with
+      | none => rw [hd] at n4; cases n4
+      | some d =>
+        have := dat (by rw [hst]; exact n1) (by rw [hst]; exact n2) (by rw [hsz]; exact n3) d (by rw [hda]; exact hd)
+        rw [g4]
+        simpa only [SecBuf.view, hd, Option.getD_some, hsz] using this
+  · intro j g hgj
+    have hj : j < r.obj.segs.length := by
+      rw [fs.1]
+      rcases Nat.lt_or_ge j o.segs.length with hlt | hge
+      · exact hlt
+      · rw [List.getElem?_eq_none hge] at hgj; cases hgj
+    have sg := fs.2 j g r.obj.segs[j] hgj (List.getElem?_eq_getElem hj)
+    have hmem : r.obj.segs[j] ∈ r.obj.segs := List.getElem_mem hj
+    have hl' : LayoutOk r.obj.cls r.obj.enc h r.obj.secs r.obj.segs := by rw [ec, ee]; exact hl
+    have hrec := save_decodes_segment hs hok hg htr hh hl' hmem
+    rw [ec, ee] at hrec
+    have er := sg.frame.rest
+    have eidx : (r.obj.segs[j]).index = g.index := sg.frame.index
+    rw [eidx] at hrec
+    obtain ⟨g0, g1, g2, g3, g4, g5, g6, g7⟩ := phdr_get_at hrec (hsegfit _ hmem)
+    simp only
+    refine ⟨g0.trans ?_, g1.trans ?_, g3.trans ?_, g4.trans ?_, ?_⟩
+    · rw [er]
+    · rw [er]
+    · rw [er]
+    · rw [er]
+    · rw [g7]; exact sg.frame.alignGrows
+
+/-- **save_decode_header** : the first bytes of the file decode, per the specification, to the
+    header attributes of the object (type, machine, version, entry, flags, the three record sizes,
+    the name-table index, the identification bytes), with `e_shnum`/`e_phnum` the numbers of sections
+    and segments. -/
+theorem save_decode_header {o : Obj} {os : OStream} {r : SaveRes} (hs : save o os = .ok r) (hok : r.ok = true)
+    (hg : os.Good) (htr : o.trans = []) {h hd : Bytes} (hh : r.obj.hdr = some h) (hhd : o.hdr = some hd)
+    (hlen : ehdrSize o.cls ≤ hd.length)
+    (hl : LayoutOk r.obj.cls r.obj.enc h r.obj.secs r.obj.segs) :
+    let img := r.os.content; let l := Spec.ehdrL o.cls
+    Spec.get l o.enc img 0 "e_type" = (Hdr.e_type o.cls o.enc hd).toNat ∧
+    Spec.get l o.enc img 0 "e_machine" = (Hdr.e_machine o.cls o.enc hd).toNat ∧
+    Spec.get l o.enc img 0 "e_version" = (Hdr.e_version o.cls o.enc hd).toNat ∧
+    Spec.get l o.enc img 0 "e_entry" = (Hdr.e_entry o.cls o.enc hd).toNat ∧
+    Spec.get l o.enc img 0 "e_flags" = (Hdr.e_flags o.cls o.enc hd).toNat ∧
+    Spec.get l o.enc img 0 "e_ehsize" = (Hdr.e_ehsize o.cls o.enc hd).toNat ∧
+    Spec.get l o.enc img 0 "e_phentsize" = (Hdr.e_phentsize o.cls o.enc hd).toNat ∧
+    Spec.get l o.enc img 0 "e_shentsize" = (Hdr.e_shentsize o.cls o.enc hd).toNat ∧
+    Spec.get l o.enc img 0 "e_shstrndx" = (Hdr.e_shstrndx o.cls o.enc hd).toNat ∧
+    Spec.get l o.enc img 0 "e_ident" = Spec.get l o.enc hd 0 "e_ident" ∧
+    Spec.get l o.enc img 0 "e_shnum" = o.secs.length % 65536 ∧
+    Spec.get l o.enc img 0 "e_phnum" = o.segs.length % 65536 := by
+  obtain ⟨hd', h', e1, e2, key⟩ := save_header_fields hs hok
+  rw [hhd] at e1; cases e1
+  rw [hh] at e2; cases e2
+  obtain ⟨elen, eu, esn, epn⟩ := key hlen
+  have sl := save_decodes_header hs hok hg htr hh hl
+  have hlh : ehdrSize o.cls ≤ h.length := by rw [elen]; exact hlen
+  have at0 : ∀ name, ValidName (Spec.ehdrL o.cls) name →
+      Spec.get (Spec.ehdrL o.cls) o.enc r.os.content 0 name = Spec.get (Spec.ehdrL o.cls) o.enc h 0 name := by
+    intro name hv
+    obtain ⟨e, he, _, hf⟩ := field_of_valid hv
+    have := (ehdr_table_ok o.cls).2 e he
+    rw [(sizes_eq o.cls).1] at hlh
+    exact get_at_base sl (by rw [hf]; omega)
+  obtain ⟨a0, a1, a2, a3, a4, a5, a6, a7, a8, a9, a10, a11, a12⟩ := C02.ehdr_fields_eq_spec o.cls o.enc h hlh
+  unfold userHdr at eu
+  simp only [Prod.mk.injEq] at eu
+  obtain ⟨u0, u1, u2, u3, u4, u5, u6, u7, u8, u9⟩ := eu
+  have vn : ∀ name ∈ ["e_type", "e_machine", "e_version", "e_entry", "e_flags", "e_ehsize", "e_phentsize",
+      "e_shentsize", "e_shstrndx", "e_ident", "e_shnum", "e_phnum"], ValidName (Spec.ehdrL o.cls) name := by
+    cases o.cls <;> decide
+  simp only
+  refine ⟨?_, ?_, ?_, ?_, ?_, ?_, ?_, ?_, ?_, ?_, ?_, ?_⟩
+  · rw [at0 _ (vn _ (by decide)), ← a0, u0]
+  · rw [at0 _ (vn _ (by decide)), ← a1, u1]
+  · rw [at0 _ (vn _ (by decide)), ← a2, u2]
+  · rw [at0 _ (vn _ (by decide)), ← a3, u3]
+  · rw [at0 _ (vn _ (by decide)), ← a6, u4]
+  · rw [at0 _ (vn _ (by decide)), ← a7, u5]
+  · rw [at0 _ (vn _ (by decide)), ← a8, u6]
+  · rw [at0 _ (vn _ (by decide)), ← a10, u7]
+  · rw [at0 _ (vn _ (by decide)), ← a12, u8]
+  · rw [at0 _ (vn _ (by decide)), u9]
+  · rw [at0 _ (vn _ (by decide)), ← a11, esn]
+  · rw [at0 _ (vn _ (by decide)), ← a9, epn]
+
 end ElfioVerif.C03
